@@ -178,18 +178,34 @@ Definition placed (img : list Z) (off : Z) (bs : list Z) : Prop :=
 Definition dview : symview := ([], []).
 Definition vth (vs : list symview) (i : Z) : symview := nth (Z.to_nat i) vs dview.
 
-(* ---- the table as an object: what each call answers, whatever was called before (there is no
-        state in the meaning of a symbol table).  Calls: number of symbols, symbol n, the first k
-        symbols of an enumeration that is then abandoned, lookup by name. *)
-Inductive scall := CNum | CGet (n : Z) | CIter (k : Z) | CByName (q : list Z).
+(* ---- the table as an object: what each call answers, whatever was called before and whatever
+        happened to the file in between (there is no state in the meaning of a symbol table).
+        Calls: number of symbols, symbol n, the first k symbols of an enumeration that is then
+        abandoned, lookup by name, and one step of enumeration number g — an enumeration is the
+        only thing with a position: its j-th step yields entry j, then it is exhausted. *)
+Inductive scall := CNum | CGet (n : Z) | CIter (k : Z) | CByName (q : list Z) | CNext (g : Z).
 Inductive sanswer :=
-| ANum (z : Z) | ASym (v : symview) | ASyms (l : list symview) | AByName (o : option (list symview)).
-Definition answer (strtab : list Z) (rows : list row) (c : scall) : sanswer :=
+| ANum (z : Z) | ASym (v : symview) | ASyms (l : list symview) | AByName (o : option (list symview)) | AStop.
+Definition enums := list (Z * Z).             (* enumeration id -> number of steps taken *)
+Fixpoint epos (es : enums) (g : Z) : Z :=
+  match es with [] => 0 | (k, j) :: r => if k =? g then j else epos r g end.
+Definition answer (strtab : list Z) (rows : list row) (es : enums) (c : scall) : sanswer :=
   match c with
   | CNum => ANum (zlen rows)
   | CGet n => ASym (vth (views strtab rows) n)
   | CIter k => ASyms (firstn (Z.to_nat k) (views strtab rows))
   | CByName q => AByName (by_name_spec strtab rows q)
+  | CNext g => if epos es g <? zlen rows then ASym (vth (views strtab rows) (epos es g)) else AStop
+  end.
+Definition advance (rows : list row) (es : enums) (c : scall) : enums :=
+  match c with
+  | CNext g => if epos es g <? zlen rows then (g, epos es g + 1) :: es else es
+  | _ => es
+  end.
+Fixpoint answers (strtab : list Z) (rows : list row) (es : enums) (calls : list scall) : list sanswer :=
+  match calls with
+  | [] => []
+  | c :: r => answer strtab rows es c :: answers strtab rows (advance rows es c) r
   end.
 (* calls that are meaningful on a table of this length *)
 Definition call_ok (rows : list row) (c : scall) : bool :=
